@@ -501,3 +501,28 @@ theorem C14_hitmiss_closed_form_arrays (A : Img Int) (bshape : List Nat) (bc : A
   List.map_congr_left fun p hp =>
     C14_hitmiss_even_closed_form A bshape bc p hpos hne hl1
       (C01.inside_length ((C01.mem_allPos A.shape p).mp hp))
+
+/-- **`hitmiss` never reads outside the image** — for every template shape, even sides and oversized templates
+included: at every position the `slack` rule evaluates (`hmEvaluated`), each of the entries tested
+(`hmEntries`: offset `k − ⌊b/2⌋` of every template entry different from 2) lies over a pixel inside the image, so
+the flat reads `input.at_flat(i + delta)` of the kernel stay within the buffer; everywhere else the kernel
+writes 0 without reading. -/
+theorem C14_hitmiss_reads_inside (A : Img Int) (bshape : List Nat) (bc : Array Int) (p : List Int)
+    (hpos : ∀ b ∈ bshape, 0 < b) (hne : A.shape ≠ [])
+    (hl1 : bshape.length = A.shape.length) (hl2 : p.length = A.shape.length)
+    (hev : hmEvaluated A.shape bshape p = true) :
+    ∀ e ∈ hmEntries bshape bc, inside A.shape (addPos p e.1) = true := by
+  intro e he
+  rw [hmEvaluated_closed A.shape bshape p hpos hne hl1 hl2, Bool.and_eq_true] at hev
+  unfold hmEntries at he
+  simp only [List.mem_filterMap, List.mem_range] at he
+  obtain ⟨i, hi, h⟩ := he
+  split at h
+  · cases h
+  · cases h
+    exact templateInside_reads A.shape bshape p _ hl1 hl2 hev.1 (inside_unravelI bshape i hi)
+
+/-- a 2×2 template on a 3×3 image is evaluated at (1,1) and (1,2) only; all four reads are inside there -/
+example : hmEvaluated [3, 3] [2, 2] [1, 2] = true ∧ hmEvaluated [3, 3] [2, 2] [2, 2] = false ∧
+    (hmEntries [2, 2] #[1, 1, 1, 1]).map (fun e => addPos [1, 2] e.1) = [[0, 1], [0, 2], [1, 1], [1, 2]] := by
+  decide
